@@ -111,8 +111,8 @@ func init() {
 			s.assume(And(Ge(strLen(r), IntLit(0)), Implies(Ge(n, IntLit(2)), Ge(strLen(r), strLen(args[1])))))
 			return []*Term{r}
 		},
-		"os/exec.CommandContext":   nonNilResult(1, "exec.CommandContext returns a non-nil *Cmd"),
-		"os/exec.Command":          nonNilResult(1, "exec.Command returns a non-nil *Cmd"),
+		"os/exec.CommandContext":   newCmdModel,
+		"os/exec.Command":          newCmdModel,
 		"context.Background":       nonNilResult(1, "context.Background returns a non-nil context"),
 		"context.WithTimeout":      nonNilResult(2, "context.WithTimeout returns a non-nil context and a non-nil cancel function"),
 		"bytes.NewReader":          nonNilResult(1, "bytes.NewReader returns a non-nil reader"),
@@ -396,4 +396,28 @@ func bePack(arr, off *Term, n int) *Term {
 		}
 	}
 	return sum
+}
+
+// newCmdModel: exec.Command / exec.CommandContext return a new *Cmd whose Cancel is nil and whose WaitDelay is zero (the
+// documented defaults: on expiry of the context the process is killed and Wait does not outlast it on account of the
+// process itself).
+func newCmdModel(vc *VC, s *State, call *ast.CallExpr, args []*Term) []*Term {
+	vc.prog.Assumed["exec.Command/CommandContext return a new non-nil *Cmd with Cancel == nil and WaitDelay == 0 (documented defaults: the process is killed when the context expires)"] = true
+	r := vc.allocRef(s, "lib", nil)
+	if t := vc.frame().info.TypeOf(call); t != nil {
+		if pt, ok := t.Underlying().(*types.Pointer); ok {
+			if st, ok := pt.Elem().Underlying().(*types.Struct); ok {
+				for i := 0; i < st.NumFields(); i++ {
+					f := st.Field(i)
+					if f.Name() == "Cancel" || f.Name() == "WaitDelay" {
+						name, arr := vc.fieldArr(s, pt.Elem(), f)
+						n := Fresh(name, arr.Sort)
+						s.assume(Eq(n, Store(arr, r, zeroValue(f.Type()))))
+						s.heap[name] = n
+					}
+				}
+			}
+		}
+	}
+	return []*Term{r}
 }
